@@ -47,22 +47,62 @@ def load_defs(ctx):
     import schema_defs, schemas
     return schema_defs.SCHEMAS, schemas
 
-def outputs_of(name, sdef):
-    """properties a schema can report under"""
-    if sdef.expect != 'ok':
-        return {STATIC_PROP.get(name, 'C03')}
-    m = RELABEL.get(name)
-    if m is None:
-        return set(sdef.props) | {'C03', 'C04', 'C12'}
-    out = {p for v in m.values() for p in v} | {'C03', 'C04', 'C12'}
-    return out
+# Which judge labels may be attributed to which property (the label names what disagreed: C01 acceptance / bytes consumed,
+# C02 tree, C09 spans, C10 error position or sentinel, C14 / C06 / C19 / C07... schema-specific post-conditions).
+# A property owns a schema (RELABEL) because the schema isolates its feature, but it is only charged with disagreements its
+# statement speaks about: e.g. C14 does not mention error positions, so an error-position disagreement on a @check schema is
+# C10's, never C14's.
+SCOPE = {
+    'C01': {'C01'}, 'C02': {'C02'}, 'C09': {'C09'}, 'C10': {'C10'}, 'C06': {'C06'},
+    'C07': {'C01', 'C02', 'C07'},
+    'C08': {'C01', 'C02', 'C09', 'C08'},
+    'C12': {'C01', 'C02', 'C14', 'C12'},
+    'C14': {'C01', 'C02', 'C14'},
+    # the three differential properties are decided by `tenum diff` against the twin, not by labels (DIFF below); only their
+    # own absolute post-conditions are taken from the judge
+    'C13': {'C13'}, 'C05': {'C05'}, 'C19': {'C19'},
+}
+# differential properties: twin kind, and whether the reported error position is part of the comparison
+DIFF = {'C13': ('inl', True), 'C05': ('nomemo', False), 'C19': ('notrace', True)}
+LABELS = ['C01', 'C02', 'C06', 'C07', 'C08', 'C09', 'C10', 'C13', 'C14', 'C19']
+
+def twin_name(name, prop):
+    return '%s__%s' % (name, DIFF[prop][0])
 
 def relabel(name, label):
     """properties under which a disagreement with judge label `label` on schema `name` is reported"""
     if label == 'C04': return ['C04']
     m = RELABEL.get(name)
     if m is None: return [label]
-    return m.get(label, m.get('*', [label]))
+    owners = m.get(label, m.get('*', [label]))
+    res = [p for p in owners if label in SCOPE.get(p, {p})]
+    # what is outside the owners' statements is charged to the property the label itself names
+    return res or [label]
+
+def possible_labels(sdef):
+    """judge labels a schema can produce at all"""
+    ls = {'C01'} | set(re.findall(r'"(C\d\d)', sdef.post or ''))
+    if sdef.cmp_fields and sdef.extract: ls.add('C02')
+    if 'o.x[' in (sdef.extract or ''): ls.add('C09')
+    if sdef.cmp_err or any(getattr(r, 'leftrec', False) for r in sdef.rules): ls.add('C10')
+    if sdef.user_ctx or sdef.extern_str: ls.add('C14')
+    return ls
+
+def outputs_of(name, sdef, SCHEMAS=None):
+    """properties a schema can report under"""
+    if sdef.aux_of: return {'C03'}      # a twin is a grammar like any other: it must compile; its behaviour is only used for comparison
+    if sdef.expect != 'ok':
+        return {STATIC_PROP.get(name, 'C03')}
+    out = {'C03', 'C04', 'C12'}
+    if RELABEL.get(name) is None:
+        out |= set(sdef.props)
+    else:
+        for l in possible_labels(sdef):
+            out |= set(relabel(name, l))
+    if SCHEMAS is not None:
+        for p in DIFF:
+            if twin_name(name, p) in SCHEMAS: out.add(p)
+    return out
 
 def _cargo_env(gen=None):
     env = dict(os.environ, CARGO_NET_OFFLINE='true')
@@ -214,6 +254,28 @@ def run_schema(T, name, n):
         res['fails'].append({'label': fm.group(2), 'what': json.loads(fm.group(3)), 'after': int(fm.group(4)), 'tables': fm.group(5), 'kv': fm.group(6).split()})
     return res
 
+def run_diff(T, name, twin, n, full):
+    t0 = time.time()
+    try:
+        p = subprocess.run([T['harness'], 'diff', name, twin, str(n), 'full' if full else 'noerr'], capture_output=True, text=True, timeout=3600)
+    except subprocess.TimeoutExpired:
+        return {'name': name, 'status': 'error', 'why': 'timeout'}
+    m = re.search(r'T-DIFF-(PASS|DONE) (\S+) twin=(\S+) n<=(\d+) tables=(\d+) valid=(\d+) nontrivial=(\d+) differing=(\d+)', p.stdout)
+    if not m:
+        return {'name': name, 'status': 'error', 'why': 'the differential run of %s / %s died: %s' % (name, twin, (p.stdout + p.stderr)[-300:])}
+    res = {'name': name, 'twin': twin, 'status': 'pass' if m.group(1) == 'PASS' else 'fail', 'n': int(m.group(4)), 'tables': int(m.group(5)), 'valid': int(m.group(6)),
+           'nontrivial': int(m.group(7)), 'differing': int(m.group(8)), 'wall_s': round(time.time() - t0, 2), 'full': full}
+    fm = re.search(r'^T-DIFF (\S+) twin=(\S+) what=(".*?") after=(\d+) tables=(.*?) kv=(.*)$', p.stdout, re.M)
+    if fm:
+        res['first'] = {'what': json.loads(fm.group(3)), 'after': int(fm.group(4)), 'tables': fm.group(5), 'kv': fm.group(6).split()}
+    return res
+
+def replay_diff(T, name, twin, full, kv):
+    p = subprocess.run([T['harness'], 'replay-diff', name, twin, 'full' if full else 'noerr'] + list(kv), capture_output=True, text=True, timeout=300)
+    m = re.search(r'T-REPLAY-(PASS|FAIL|INVALID) (\S+)(?: prop=(\S+) what=(".*?"))?(?: tables=(.*))?', p.stdout)
+    if not m: return {'status': 'error', 'why': (p.stdout + p.stderr)[-400:]}
+    return {'status': m.group(1).lower(), 'what': json.loads(m.group(4)) if m.group(4) else None, 'tables': m.group(5)}
+
 def replay(T, name, kv):
     p = subprocess.run([T['harness'], 'replay', name] + list(kv), capture_output=True, text=True, timeout=300)
     out = p.stdout
@@ -228,7 +290,7 @@ def t_part(ctx, prop):
     if T['errors']:
         out['inconclusive'] += T['errors']
         return out
-    mine = [n for n, s in SCHEMAS.items() if prop in outputs_of(n, s) and not s.isolated]
+    mine = [n for n, s in SCHEMAS.items() if prop in outputs_of(n, s, SCHEMAS) and not s.isolated]
     for n, s in SCHEMAS.items():
         if s.isolated and prop in s.props:
             if n not in T['status']: build_isolated(ctx, T, n)
@@ -276,11 +338,45 @@ def t_part(ctx, prop):
     if prop == 'C04':
         # every schema is run (a panic of the generated glue is reported under C04), at a small bound
         cap = min(cap, 3e6)
-    results = {}
+    diff_jobs = {}
+    if prop in DIFF:
+        # differential property: the schema and its twin (the feature removed) are run on every table and their REAL runs compared
+        for n in run:
+            tw = twin_name(n, prop)
+            if tw not in SCHEMAS: continue
+            if T['status'].get(tw, {}).get('verdict') == 'harness' and tw not in T['excluded']:
+                diff_jobs[n] = tw
+            else:
+                out['inconclusive'].append('the differential twin %s of %s cannot be run (%s)' % (tw, n, (T['compile_violations'].get(tw) or [T['status'].get(tw, {}).get('driver', 'not built')])[0][:200]))
+        # the comparison with the reference semantics is needed here only for the property's own post-conditions
+        run = [n for n in run if prop in possible_labels(SCHEMAS[n])]
+    results, diffs = {}, {}
     with concurrent.futures.ThreadPoolExecutor(max_workers=14) as ex:
         esc = set(ctx.cache.get('escalate') or [])
         futs = {n: ex.submit(run_schema, T, n, sm.bound_for(SCHEMAS[n], THOROUGH_CAP if n in esc else cap)) for n in run}
+        dfuts = {n: ex.submit(run_diff, T, n, tw, sm.bound_for(SCHEMAS[n], cap), DIFF[prop][1]) for n, tw in diff_jobs.items()}
         for n, f in futs.items(): results[n] = f.result()
+        for n, f in dfuts.items(): diffs[n] = f.result()
+    for n, d in diffs.items():
+        s = SCHEMAS[n]
+        if d['status'] == 'error':
+            out['inconclusive'].append('schema %s: %s' % (n, d.get('why'))); continue
+        out['schemas'].append({'schema': n, 'grammar': s.note, 'differential_twin': d['twin'], 'twin_grammar': open(_ebnf_path(ctx, T, d['twin'])).read(),
+                               'compared': 'acceptance, bytes consumed, tree, positions' + (', error position' if d['full'] else ''),
+                               'bound_n': d['n'], 'tables': d['tables'], 'valid': d['valid'], 'differing': d['differing'], 'wall_s': d['wall_s']})
+        out['evaluations'] += d['valid']
+        out['nontrivial'] += d['nontrivial']
+        if len(out['samples']) < 5:
+            out['samples'].append({'schema': n, 'grammar': open(_ebnf_path(ctx, T, n)).read(), 'twin': open(_ebnf_path(ctx, T, d['twin'])).read(),
+                                   'bound': 'input <= %d bytes' % d['n'], 'operand_tables_compared': d['valid']})
+        if d['status'] == 'fail':
+            f = d['first']
+            rp = ctx.replay_path('T-%s-diff' % n)
+            out['violations'].append({'id': 'T:%s:diff' % n, 'layer': 'T', 'schema': n, 'twin': d['twin'], 'diff_full': d['full'], 'assertion': f['what'], 'label': prop,
+                                      'replay': rp, 'no_failing_input': False, 'tables': f['tables'], 'kv': f['kv'], 'bound_n': d['n'],
+                                      'grammar': open(_ebnf_path(ctx, T, n)).read(), 'twin_grammar': open(_ebnf_path(ctx, T, d['twin'])).read(),
+                                      'what': 'schema %s [%s] %s (%s; %d of %d tables differ)\n  operands/input: %s' % (
+                                          n, s.note, f['what'], SCHEMAS[d['twin']].note, d['differing'], d['valid'], f['tables'])})
     for n, r in results.items():
         s = SCHEMAS[n]
         if r['status'] == 'error':
